@@ -123,6 +123,25 @@ objs=[avg(v)*dS(degree=1) + avg(f)*avg(v)*dS(degree=2) + jump(grad(f),FacetNorma
     _c("two_rules_one_point_tet_ds", '''
 m=mesh("tetrahedron"); V=space(m,"P",1); u,v=TrialFunction(V),TestFunction(V); f=Coefficient(V)
 objs=[u*v*ds(degree=1) + f*u*v*ds(degree=3)]'''),
+    # mixed derivatives of order three (components that differ only in how often each direction occurs), 2D and 3D
+    _c("third_derivatives_mixed_tri", '''
+m=mesh("triangle"); V=space(m,"P",3); u,v=TrialFunction(V),TestFunction(V); f=Coefficient(V)
+objs=[f.dx(0).dx(1).dx(1)*v*dx(degree=2) + f.dx(0).dx(0).dx(1)*v.dx(1)*dx(degree=2), u.dx(1).dx(1).dx(0)*v.dx(0).dx(0).dx(1)*dx(degree=2), grad(grad(grad(f)))[1,1,1]*dx(degree=1)]'''),
+    _c("third_derivatives_mixed_tet", '''
+m=mesh("tetrahedron"); V=space(m,"P",3); v=TestFunction(V); f=Coefficient(V)
+objs=[(f.dx(0).dx(1).dx(2) + 2*f.dx(0).dx(0).dx(1) + 3*f.dx(0).dx(1).dx(1) + 5*f.dx(2).dx(2).dx(0))*v*dx(degree=1)]'''),
+    # a coefficient in a real (global constant) space on interior facets, numbered before another coefficient and read on both sides
+    _c("real_coefficient_interior_facet", '''
+m=mesh("triangle"); R=FunctionSpace(m,basix.ufl.real_element("triangle",())); V=space(m,"DP",1); r=Coefficient(R); f=Coefficient(V); v=TestFunction(V)
+objs=[r*jump(f)*avg(v)*dS + r('-')*f('+')*v('-')*dS + r*f*v*dx]'''),
+    # several constants (scalar, vector, matrix) used in an interior-facet integral, the later ones included
+    _c("constants_interior_facet", '''
+m=mesh("triangle"); V=space(m,"DP",1); u,v=TrialFunction(V),TestFunction(V); a=Constant(m); b=Constant(m); M=Constant(m, shape=(2,2)); w=Constant(m, shape=(2,))
+objs=[a*u*v*dx + b*jump(u)*jump(v)*dS + inner(M*grad(u)('+'), w)*avg(v)*dS + b*u*v*ds, b*avg(v)*dS + w[1]*v('-')*dS]'''),
+    # interior facets with DIFFERENT test and trial spaces (the macro tensor is 2*dim(test) x 2*dim(trial)), both orders
+    _c("int_facet_different_test_trial_spaces", '''
+m=mesh("triangle"); V2=space(m,"DP",2); V1=space(m,"DP",1); u1,v2=TrialFunction(V1),TestFunction(V2); u2,v1=TrialFunction(V2),TestFunction(V1)
+objs=[u1('+')*v2('-')*dS + 2*u1('-')*v2('+')*dS + 3*u1('+')*v2('+')*dS + 5*u1('-')*v2('-')*dS, jump(u2)*avg(v1)*dS + u2('-')*v1('-')*dS]'''),
     _c("mathfun_tri", '''
 m=mesh("triangle"); V=space(m,"P",1); f=Coefficient(V)
 objs=[exp(f)*sin(f)*dx + ln(f*f+2.0)*dx]'''),
@@ -207,6 +226,17 @@ objs=[(as_vector((a*x[0], b*x[1]+s[1], r*s[0])), np.array([[0.25,0.25],[0.5,0.12
 m=mesh("triangle"); V=space(m,"P",1); W=space(m,"P",2); v=TestFunction(V); a=Constant(m, count=9); b=Constant(m, count=10)
 f=Coefficient(V, count=99); g=Coefficient(W, count=100)
 objs=[(a*f + b*g*g)*v*dx + b*f*v*ds]'''),
+    # expressions in which preprocessing removes a coefficient that is numbered before a surviving one (w holds the survivors only)
+    _c("expr_coefficient_eliminated_first", '''
+m=mesh("triangle"); D=space(m,"DP",0); V=space(m,"P",2); k=Coefficient(D); g=Coefficient(V); h=Coefficient(V)
+objs=[(g + (k+h).dx(0), np.array([[0.25,0.25],[0.5,0.125]])), (as_vector([g*h, grad(k+g)[1]*h]), np.array([[0.125,0.5]]))]'''),
+    _c("expr_coefficient_eliminated_by_variable_derivative", '''
+m=mesh("triangle"); V=space(m,"P",1); u=Coefficient(V); g=Coefficient(V); h=Coefficient(V); uv=ufl.variable(u)
+objs=[(ufl.diff(uv*g + h, uv) + h, np.array([[0.25,0.25],[0.5,0.125]]))]'''),
+    # the full Hessian of a coefficient (both mixed components) and of an argument, as expressions
+    _c("expr_hessian_tri", '''
+m=mesh("triangle"); V=space(m,"P",2); f=Coefficient(V); u=TrialFunction(V)
+objs=[(grad(grad(f)), np.array([[0.25,0.25],[0.5,0.125]])), (grad(grad(u))[0,1] + grad(grad(u))[1,0] + f.dx(0).dx(1)*u, np.array([[0.125,0.5]]))]'''),
     _c("expr_literal_rank1", '''
 m=mesh("tetrahedron"); V=space(m,"P",1); u=TrialFunction(V); x=SpatialCoordinate(m)
 objs=[(as_vector((u, 2.0*u, u.dx(1))), np.array([[0.25,0.25,0.125]])), (grad(x)[0,:]*u, np.array([[0.125,0.5,0.25]]))]'''),
